@@ -3,7 +3,9 @@ From Coq Require Import Arith NArith List Bool Sorted.
 From Blue Require Import Scrunch.ModelBits Scrunch.Model Scrunch.ModelWT Scrunch.ProofsBits
   Scrunch.ProofsSorted Scrunch.ProofsSuffix Scrunch.ProofsIAP Scrunch.ProofsSearch Scrunch.ProofsSigma
   Scrunch.ProofsDoc Scrunch.ProofsSampled Scrunch.ProofsCompressed Scrunch.ProofsWT1 Scrunch.ProofsWT2
-  Scrunch.ProofsWT3 Scrunch.ProofsWT4 Scrunch.ModelPrefixWT Scrunch.ProofsPrefixWT.
+  Scrunch.ProofsWT3 Scrunch.ProofsWT4 Scrunch.ModelPrefixWT Scrunch.ProofsPrefixWT
+  Scrunch.ModelSparse Scrunch.ModelRRR Scrunch.ModelPrefixRRR Scrunch.ProofsSparse4 Scrunch.ProofsSparse5
+  Scrunch.ProofsRRR1 Scrunch.ProofsRRR2 Scrunch.ProofsRRR4 Scrunch.ProofsRRR6 Scrunch.ProofsStructural.
 Import ListNotations.
 Local Open Scope nat_scope.
 From Blue Require Import Scrunch.Props_C19.
@@ -25,3 +27,11 @@ Check C19_suffix_array_sorted : forall T, is_suffix_array T (suffix_array T).
 Check C19_rank_select_spec : forall b, (forall k p, bv_select b k = Some p -> bv_rank b p = Some k) /\ (forall k, (exists p, bv_select b k = Some p) <-> k <= count1 b) /\ (forall k p, 0 < k -> bv_select b k = Some p -> 0 < p /\ bv_access b (p - 1) = Some true) /\ (forall i, bv_access b i = Some true -> bv_select b (count1 (firstn (S i) b)) = Some (S i)) /\ (forall x, bv_rank b x = if x <=? length b then Some (count1 (firstn x b)) else None).
 Check C19_trait_defaults_equal_spec : forall b k, default_select (length b) (bv_rank b) k = Ok (bv_select b k) /\ default_select0 (length b) (bv_rank b) k = Ok (bv_select0 b k).
 Check C19_from_indices_rank_select : forall len idx, sinc idx -> Forall (fun i => i < len) idx -> (forall x, x <= len -> bv_rank (bits_of_indices len idx) x = Some (count_lt idx x)) /\ (forall k, 0 < k -> k <= length idx -> bv_select (bits_of_indices len idx) k = Some (S (nth (k - 1) idx 0))) /\ (forall k, length idx < k -> bv_select (bits_of_indices len idx) k = None).
+Check C19_sparse_from_indices_is_the_bit_list : forall branch len idx b, from_indices branch len idx = Some b -> exists v, sv_from_indices branch len idx = Some v /\ sparse_answers v b.
+Check C19_sparse_construct_is_the_bit_list : forall b, exists v, sv_construct b = Some v /\ sparse_answers v b.
+Check C19_rrr_decode_inverts_encode : forall w, length w = 63 -> exists o, ModelRRR.encode w = Ok (o, count1 w) /\ ModelRRR.decode o (count1 w) = Some w /\ (o < 2 ^ N.of_nat (nth (count1 w) L_table 0%nat))%N.
+Check C19_rrr_select_word : forall word x, length word <= 64 -> select_word word x = bv_select word x.
+Check C19_rrr_bit_vector_is_the_bit_list : forall b, rrr_len_ok (length b) -> exists v, rr_construct b = Ok v /\ rrr_answers v b.
+Check C19_rrr_length_bound : forall n, rrr_len_ok n <-> n + 1 <= 2 ^ 62.
+Check C19_prefix_wavelet_tree_over_rrr : forall enc dec cf text, (forall s, In s text -> enc s = Some (cf s) /\ dec (cf s) = Some s) -> rrr_len_ok (length text) -> forall fuel t, pt_build enc fuel text = Ok t -> exists rt, rt_build enc fuel text = Ok rt /\ (forall x, x < length text -> rt_access dec rt x = Ok (wt_access text x)) /\ (forall q, In q text -> forall x, x <= length text -> rt_rank_q enc rt q x = Ok (wt_rank_q text q x)) /\ (forall q, In q text -> forall k, rt_select_q enc rt q k = Ok (wt_select_q text q k)).
+Check C19_compressed_document_answers_as_scan_structural_partial : forall text rb, check_record_boundaries text rb = true -> exists d, construct_compressed text rb = Ok d /\ answers_as_scan text rb d /\ exists v, sv_from_indices 16 (length text) (map (fun b => b - 1) (tl rb)) = Some v /\ sparse_answers v (d_rb d) /\ sdoc_records v = Ok (length rb) /\ (forall off, off < length text -> sdoc_lookup v off = Ok (spec_record_of rb off)) /\ (forall r, r < length rb -> sdoc_offset_of v r = Ok (nth r rb 0)) /\ (forall r, length rb <= r -> sdoc_offset_of v r = Err).
